@@ -1,5 +1,6 @@
 import Model.C10
 import Proofs.C10
+import Proofs.C10.Link
 /-!
 # C10 — batched quorum writes: success only with quorum on every key, and always finish
 
@@ -7,7 +8,8 @@ Property theorems about the model of `ring/batch.go` (`Model/C10.lean`). Common 
 
 * `hg : GoodGets gets` — every replica set has a tolerance `0 ≤ MaxErrors < #replicas` (what
   `Ring.Get` returns; then `minSuccess ≥ 1` and `minSuccess + maxFailures = #replicas`);
-* `hp : prepare fix icount cancelAt gets = .ok p` — the sequential prefix did not return early;
+* `hp : prepare icount cancelAt gets = .ok p` — the sequential prefix did not return early (every
+  early return, including the empty key list, is covered by `empty_keys_return` / `early_cleanup_once`);
 * `hr : run (initSt p out) evs = some s` — `s` is reached by the schedule `evs`, an ARBITRARY
   interleaving of the atomic events of all goroutines, the cleanup goroutine, the end of the
   caller's context and the caller's `select`.
@@ -18,55 +20,48 @@ and all micro-interleavings (no bound on keys, replicas or steps).
 namespace PC10
 open C10 PfC10
 
-variable {fix : Bool} {icount : Int} {ca : Option Nat} {gets : List GetRes} {p : Prep}
+variable {icount : Int} {ca : Option Nat} {gets : List GetRes} {p : Prep}
   {out : Nat → Outcome} {evs : List Ev} {s : St}
 
 /-! ### signalling -/
 
 /-- At most one send on `done`, at most one on `err`, never both. -/
-theorem signals_exclusive (hg : GoodGets gets) (hp : prepare fix icount ca gets = .ok p)
+theorem signals_exclusive (hg : GoodGets gets) (hp : prepare icount ca gets = .ok p)
     (hr : run (initSt p out) evs = some s) : s.nDone ≤ 1 ∧ s.nErr ≤ 1 ∧ s.nDone + s.nErr ≤ 1 :=
   signals_exclusive' (inv_of_run hg hp hr)
 
 /-- Neither send ever blocks: a goroutine that is about to send finds its channel empty. -/
-theorem sends_never_block (hg : GoodGets gets) (hp : prepare fix icount ca gets = .ok p)
+theorem sends_never_block (hg : GoodGets gets) (hp : prepare icount ca gets = .ok p)
     (hr : run (initSt p out) evs = some s) (k : Nat) (t : Thread) (hk : s.thr[k]? = some t) :
     (t.st = .sDone → s.done = 0) ∧ (t.st = .eSend → s.errc = none) ∧ (∀ e, t.st = .sSend e → s.errc = none) :=
   sends_enabled' (inv_of_run hg hp hr) hk
 
 /-- A key that reached `minSuccess` never triggers the failure signal: neither error family can
 exceed its tolerance and its `remaining` counter stays positive. -/
-theorem quorum_key_never_fails (hg : GoodGets gets) (hp : prepare fix icount ca gets = .ok p)
+theorem quorum_key_never_fails (hg : GoodGets gets) (hp : prepare icount ca gets = .ok p)
     (hr : run (initSt p out) evs = some s) (i : Nat) (it : Item) (hit : s.items[i]? = some it)
     (hq : it.minSuccess ≤ it.succeeded) :
     it.failedClient ≤ it.maxFailures ∧ it.failedServer ≤ it.maxFailures ∧ 1 ≤ it.remaining :=
   reached_safe (inv_of_run hg hp hr) hit hq
 
 /-- `done` was sent ⇒ at that moment every key has at least `minSuccess` successes. -/
-theorem done_sound (hg : GoodGets gets) (hp : prepare fix icount ca gets = .ok p)
+theorem done_sound (hg : GoodGets gets) (hp : prepare icount ca gets = .ok p)
     (hr : run (initSt p out) evs = some s) (hd : 1 ≤ s.nDone) :
     ∀ (i : Nat) (it : Item), s.items[i]? = some it → it.minSuccess ≤ it.succeeded :=
   done_sound' (inv_of_run hg hp hr) hd
 
-/-- When all callback goroutines have finished and the key list is not empty, exactly one of
-`done` / `err` was sent: `done` iff every key reached its quorum, `err` iff some key ended without. -/
-theorem complete (hg : GoodGets gets) (hp : prepare fix icount ca gets = .ok p)
-    (hr : run (initSt p out) evs = some s) (hne : gets ≠ []) (hf : ∀ t ∈ s.thr, t.st = .fin) :
+/-- When all callback goroutines have finished, exactly one of `done` / `err` was sent: `done` iff
+every key reached its quorum, `err` iff some key ended without. (The key list is non-empty here: an
+empty one returns before anything is spawned, `empty_keys_return`.) -/
+theorem complete (hg : GoodGets gets) (hp : prepare icount ca gets = .ok p)
+    (hr : run (initSt p out) evs = some s) (hf : ∀ t ∈ s.thr, t.st = .fin) :
     (s.nDone = 1 ∧ s.nErr = 0 ∧ ∀ (i : Nat) (it : Item), s.items[i]? = some it → it.minSuccess ≤ it.succeeded) ∨
-    (s.nDone = 0 ∧ s.nErr = 1 ∧ ∃ (i : Nat) (it : Item), s.items[i]? = some it ∧ it.succeeded < it.minSuccess) := by
-  refine complete' (inv_of_run hg hp hr) hf ?_
-  intro h0
-  have h1 := items_length_reach (reach_of_run hr)
-  have h2 := items_of_prepare hp
-  simp only [initSt] at h1
-  rw [h0] at h1
-  cases gets with
-  | nil => exact hne rfl
-  | cons g r => simp at h2; simp at h1; omega
+    (s.nDone = 0 ∧ s.nErr = 1 ∧ ∃ (i : Nat) (it : Item), s.items[i]? = some it ∧ it.succeeded < it.minSuccess) :=
+  complete' (inv_of_run hg hp hr) hf (items_ne_of_run hp hr)
 
 /-- The value sent on `err` is an error that some replica's callback actually returned (never `nil`,
 also on the path that loads it back from the tracker). -/
-theorem err_provenance (hg : GoodGets gets) (hp : prepare fix icount ca gets = .ok p)
+theorem err_provenance (hg : GoodGets gets) (hp : prepare icount ca gets = .ok p)
     (hr : run (initSt p out) evs = some s) (e : Option Nat) (he : s.sentErr = some e) :
     ∃ a, e = some a ∧ ReturnedErr s a :=
   (inv_of_run hg hp hr).p.sent e he
@@ -74,14 +69,14 @@ theorem err_provenance (hg : GoodGets gets) (hp : prepare fix icount ca gets = .
 /-- As soon as the failures of one family exceed the tolerance of a key (or its last replica has
 been counted without quorum), the failure signal has been sent or some goroutine is on the straight
 path (`rpcsFailed.Inc`, load, send — none of which can block) that sends it. -/
-theorem early_failure (hg : GoodGets gets) (hp : prepare fix icount ca gets = .ok p)
+theorem early_failure (hg : GoodGets gets) (hp : prepare icount ca gets = .ok p)
     (hr : run (initSt p out) evs = some s) (i : Nat) (it : Item) (hit : s.items[i]? = some it)
     (h : it.maxFailures < it.failedClient ∨ it.maxFailures < it.failedServer ∨ it.remaining ≤ 0) :
     s.nErr = 1 ∨ ∃ t ∈ s.thr, signalling t :=
   early_failure' (inv_of_run hg hp hr) hit h
 
 /-- Conversely the failure signal is claimed only for a key that can never reach its quorum any more. -/
-theorem failure_only_if_doomed (hg : GoodGets gets) (hp : prepare fix icount ca gets = .ok p)
+theorem failure_only_if_doomed (hg : GoodGets gets) (hp : prepare icount ca gets = .ok p)
     (hr : run (initSt p out) evs = some s) (h : 1 ≤ s.nErr) :
     ∃ (i : Nat) (it : Item), s.items[i]? = some it ∧ Doomed s i it ∧ ¬ it.minSuccess ≤ it.succeeded := by
   have hi := inv_of_run hg hp hr
@@ -107,7 +102,7 @@ theorem group_exact_nodup (sets : List (List Nat)) (hnd : ∀ s ∈ sets, s.Nodu
   PfC10.group_exact_nodup sets hnd a idx h
 
 /-- One goroutine per selected replica, called with exactly its index list. -/
-theorem threads_are_groups (hp : prepare fix icount ca gets = .ok p) :
+theorem threads_are_groups (hp : prepare icount ca gets = .ok p) :
     (initSt p out).thr.map (fun t => (t.id, t.todo)) = p.calls ∧
     ∃ l : List (List Nat × Int), gets = l.map (fun q => GetRes.ok q.1 q.2) ∧ p.calls = group (l.map (·.1)) := by
   obtain ⟨l, h1, _, h3, _⟩ := prepare_ok hp
@@ -121,7 +116,7 @@ theorem threads_are_groups (hp : prepare fix icount ca gets = .ok p) :
 
 /-- Cleanup runs at most once, only after every callback goroutine has finished (wait-group counter
 0 ⇔ all finished); and it is enabled exactly then. -/
-theorem cleanup_once_after_all (hg : GoodGets gets) (hp : prepare fix icount ca gets = .ok p)
+theorem cleanup_once_after_all (hg : GoodGets gets) (hp : prepare icount ca gets = .ok p)
     (hr : run (initSt p out) evs = some s) :
     s.cleanup ≤ 1 ∧ (s.cleanup = 1 → ∀ t ∈ s.thr, t.st = .fin) ∧
     ((step s .cleanup).isSome = true ↔ (∀ t ∈ s.thr, t.st = .fin) ∧ s.cleanup = 0) := by
@@ -163,59 +158,90 @@ theorem returns_once (s s' : St) (evs' : List Ev) (r : Ret) (h : s.ret = some r)
 
 /-- What was returned was justified: `nil` ⇒ every key has its quorum of acknowledgements; an error
 ⇒ it is one a replica returned and some key can never reach its quorum. -/
-theorem return_value_sound (hg : GoodGets gets) (hp : prepare fix icount ca gets = .ok p)
+theorem return_value_sound (hg : GoodGets gets) (hp : prepare icount ca gets = .ok p)
     (hr : run (initSt p out) evs = some s) :
     (s.ret = some .done → ∀ (i : Nat) (it : Item), s.items[i]? = some it → it.minSuccess ≤ it.succeeded) ∧
     (∀ e, s.ret = some (.err e) → (∃ a, e = some a ∧ ReturnedErr s a) ∧
       ∃ (i : Nat) (it : Item), s.items[i]? = some it ∧ Doomed s i it) :=
   ret_sound' (inv_of_run hg hp hr)
 
-/-- PARTIAL (guard `gets ≠ []`): once all replica calls have returned and been recorded, the caller's
-`select` can fire. The full statement (also for an empty key list) is FALSE of the current code, see
-`empty_keys_hang`:
-`theorem returns_when_all_done : (∀ t ∈ s.thr, t.st = .fin) → s.ret = none → recvDone or recvErr enabled`. -/
-theorem returns_partial (hg : GoodGets gets) (hp : prepare fix icount ca gets = .ok p)
-    (hr : run (initSt p out) evs = some s) (hne : gets ≠ []) (hf : ∀ t ∈ s.thr, t.st = .fin)
-    (hret : s.ret = none) : (step s .recvDone).isSome = true ∨ (step s .recvErr).isSome = true := by
-  refine returns_when_all_done' (inv_of_run hg hp hr) hf ?_ hret
-  intro h0
-  have h1 := items_length_reach (reach_of_run hr)
-  have h2 := items_of_prepare hp
-  simp only [initSt] at h1
-  rw [h0] at h1
-  cases gets with
-  | nil => exact hne rfl
-  | cons g r => simp at h2; simp at h1; omega
+/-- Once all replica calls have returned and been recorded, the caller's `select` can fire — for
+every key list the prefix lets through (FULL strength: no guard on the key list; the empty one is
+`empty_keys_return`). -/
+theorem returns_when_all_done (hg : GoodGets gets) (hp : prepare icount ca gets = .ok p)
+    (hr : run (initSt p out) evs = some s) (hf : ∀ t ∈ s.thr, t.st = .fin)
+    (hret : s.ret = none) : (step s .recvDone).isSome = true ∨ (step s .recvErr).isSome = true :=
+  returns_when_all_done' (inv_of_run hg hp hr) hf (items_ne_of_run hp hr) hret
 
-/-- WITNESS of the defect (D2): with an empty key list the current code (`fixEmpty = false`) enters
-its `select` with no goroutine that could ever signal; under every schedule in which the context
-does not end, the caller has not returned and none of the three branches is enabled. -/
+/-- An empty key list returns at once, after exactly one cleanup and without calling anyone: with the
+"no instances" error, with the context's error if it has already ended, and with `nil` otherwise. -/
+theorem empty_keys_return (icount : Int) (ca : Option Nat) :
+    prepare icount ca [] =
+      .error (if icount ≤ 0 then .noInstances else if cancelled ca 0 then .ctx else .emptyOk, 0) ∧
+    ∀ e, (earlyTrace e).count .cleanup = 1 :=
+  ⟨empty_prepare_now icount ca, fun e => by cases e <;> decide⟩
+
+/-- ALWAYS FINISHES, every key list (also the empty one), every schedule: either the prefix returns
+at once (one cleanup, then the return), or — in every state reached by any interleaving — the caller's
+`select` is enabled as soon as all replica calls have been recorded or the context has ended. -/
+theorem always_finishes (hg : GoodGets gets) :
+    (∃ e g, prepare icount ca gets = .error (e, g) ∧ earlyTrace e = [.cleanup, .ret e]) ∨
+    (∃ p, prepare icount ca gets = .ok p ∧ ∀ (out : Nat → Outcome) (evs : List Ev) (s : St),
+      run (initSt p out) evs = some s → s.ret = none → ((∀ t ∈ s.thr, t.st = .fin) ∨ s.ctx = true) →
+      (step s .recvDone).isSome = true ∨ (step s .recvErr).isSome = true ∨ (step s .recvCtx).isSome = true) := by
+  cases hp : prepare icount ca gets with
+  | error eg => exact .inl ⟨eg.1, eg.2, rfl, rfl⟩
+  | ok p =>
+    refine .inr ⟨p, rfl, ?_⟩
+    intro out evs s hr hret hcase
+    rcases hcase with hf | hc
+    · rcases returns_when_all_done' (inv_of_run hg hp hr) hf (items_ne_of_run hp hr) hret with h | h
+      · exact .inl h
+      · exact .inr (.inl h)
+    · exact .inr (.inr ((select_enabled' s hret).2.2 hc))
+
+/-- HISTORY — witness of defect D2 in the code before commit "fix: DoBatch with an empty key list never
+returns" (`preparePreFix`): the empty key list reached the `select` with no goroutine that could ever
+signal; under every schedule in which the context does not end, the caller has not returned and none
+of the three branches is enabled. -/
 theorem empty_keys_hang (h : 0 < icount) (evs : List Ev) (s : St) (hnc : Ev.cancel ∉ evs)
     (hr : run (initSt { items := [], calls := [], gets := 0 } out) evs = some s) :
-    prepare false icount none [] = .ok { items := [], calls := [], gets := 0 } ∧
+    preparePreFix icount none [] = .ok { items := [], calls := [], gets := 0 } ∧
     s.ret = none ∧ (step s .recvDone) = none ∧ (step s .recvErr) = none ∧ (step s .recvCtx) = none := by
   obtain ⟨_, h2, h3, h4, h5⟩ := empty_hang evs _ s rfl rfl rfl rfl rfl hr hnc
-  refine ⟨empty_prepare h none rfl, h5, ?_, ?_, ?_⟩
+  refine ⟨empty_prepare_prefix h none rfl, h5, ?_, ?_, ?_⟩
   · simp [step, h2]
   · simp [step, h3]
   · simp [step, h4]
 
-/-- ... while cleanup does run in that situation (the cleanup goroutine passes `wg.Wait()` at once). -/
+/-- ... while cleanup did run in that situation (the cleanup goroutine passes `wg.Wait()` at once). -/
 theorem empty_keys_cleanup_runs :
     (run (initSt { items := [], calls := [], gets := 0 } out) [.cleanup]).map (·.cleanup) = some 1 := by
   rfl
 
-/-- With the suggested repair (`fixEmpty = true`: `if len(keys) == 0 { o.Cleanup(); return nil }`
-after the last context check) the empty key list returns `nil` at once, after one cleanup. -/
-theorem returns_fixed (h : 0 < icount) :
-    prepare true icount none [] = .error (.emptyOk, 0) ∧ earlyTrace .emptyOk = [.cleanup, .ret .emptyOk] :=
-  ⟨empty_prepare_fixed h none rfl, rfl⟩
+/-! ### link to C02 (quorum intersection) -/
+
+/-- `DoBatch` reports success (or merely: `done` has been signalled) ⇒ for every key `i`, the replicas
+that acknowledged it contain a set `A` with C02's `writeOk A W`, where `W` is the key's replication
+set as returned by `Get` (`gets[i] = W` under an injective numbering `aid` of its instances). This is
+the premise of C02's `quorum_intersect…` theorems. -/
+theorem batch_success_implies_writeOk (hg : GoodGets gets) (hp : prepare icount ca gets = .ok p)
+    (hr : run (initSt p out) evs = some s) (hd : s.ret = some .done ∨ 1 ≤ s.nDone)
+    (i : Nat) (W : C01.RSet) (aid : Ring.Inst → Nat)
+    (hinj : ∀ x ∈ W.instances, ∀ y ∈ W.instances, aid x = aid y → x = y) (hW : W.instances.Nodup)
+    (hi : gets[i]? = some (.ok (W.instances.map aid) W.maxErrors)) :
+    ∃ A : List Ring.Inst, C02.writeOk A W ∧ ∀ x ∈ A, Acked p s i (aid x) := by
+  have hd' : 1 ≤ s.nDone := by
+    rcases hd with h | h
+    · have := (inv_of_run hg hp hr).d.retd h; omega
+    · exact h
+  exact batch_success_implies_writeOk' hg hp hr hd' i W aid hinj hW hi
 
 /-! ### always finishes -/
 
 /-- No goroutine is ever stuck: whatever the state, the next event of every unfinished goroutine
 (start of the callback, its return, or its next atomic action) is enabled. -/
-theorem no_deadlock (hg : GoodGets gets) (hp : prepare fix icount ca gets = .ok p)
+theorem no_deadlock (hg : GoodGets gets) (hp : prepare icount ca gets = .ok p)
     (hr : run (initSt p out) evs = some s) (k : Nat) (t : Thread) (hk : s.thr[k]? = some t) (hnf : t.st ≠ .fin) :
     ∃ ev, (ev = .start k ∨ ev = .ret k ∨ ev = .tick k) ∧ (step s ev).isSome = true :=
   no_deadlock' (inv_of_run hg hp hr) hk hnf
@@ -239,7 +265,10 @@ example : GoodGets exGets := by
 def exPrep : Prep := { items := [mkItem [0, 1, 2] 1, mkItem [1, 2, 3] 1],
                        calls := [(0, [0]), (1, [0, 1]), (2, [0, 1]), (3, [1])], gets := 2 }
 
-example : prepare false 4 none exGets = .ok exPrep := by decide
+example : prepare 4 none exGets = .ok exPrep := by decide
+
+/-- the empty key list now returns `nil` at once -/
+example : prepare 3 none [] = .error (.emptyOk, 0) := by decide
 
 def exOut : Nat → Outcome := fun a => if a = 0 then .server else .ok
 
@@ -259,7 +288,15 @@ example : ((run (initSt exPrep exOut2)
       fun s => (s.nDone, s.nErr, s.ret)) = some (0, 1, some (.err (some 1))) := by
   decide
 
-/-- the D2 witness on concrete data: cleanup runs, then nothing can make the caller return -/
+/-- the hypotheses of the link theorem are satisfiable: three instances numbered by their timestamp -/
+def exW : C01.RSet :=
+  { instances := [{ id := "a", ts := 0 }, { id := "b", ts := 1 }, { id := "c", ts := 2 }], maxErrors := 1 }
+def exAid : Ring.Inst → Nat := fun x => x.ts.toNat
+
+example : (∀ x ∈ exW.instances, ∀ y ∈ exW.instances, exAid x = exAid y → x = y) ∧ exW.instances.Nodup ∧
+    exGets[0]? = some (.ok (exW.instances.map exAid) exW.maxErrors) := by decide
+
+/-- the historic D2 witness on concrete data: cleanup ran, then nothing could make the caller return -/
 example : ((run (initSt { items := [], calls := [], gets := 0 } exOut) [.cleanup]).map
     fun s => (s.cleanup, step s .recvDone, step s .recvErr, step s .recvCtx)) = some (1, none, none, none) := by
   decide
